@@ -157,10 +157,59 @@ def sweep(ctx):
     return viol, {"stats": dict(stats), "run_outcomes": dict(outcomes), "programs_run": len(luas)}
 
 
+def nested_programs():
+    """Deeply nested statements and expressions (40-60 levels): since /repo f1d69d9 the last expression of a block is
+    checked once; before, every level doubled the work (24 nested ifs: 18 s).  Each must compile within the watchdog."""
+    out = []
+    for depth in (40, 50, 60):
+        def wrap(open_line, close_line, core, d=depth):
+            lines = ["start :: fn do", "    x := 0"]
+            for i in range(d):
+                lines.append("    " + "  " * i + open_line)
+            lines.append("    " + "  " * d + core)
+            for i in reversed(range(d)):
+                lines.append("    " + "  " * i + close_line)
+            lines.append("    x <=> 1")
+            lines.append("end")
+            return "\n".join(lines) + "\n"
+        out.append(("nested-if-%d" % depth, wrap("if true do", "end", "x = x + 1")))
+        out.append(("nested-block-%d" % depth, wrap("do", "end", "x = x + 1")))
+        out.append(("nested-loop-%d" % depth, wrap("loop x < 1 do", "end", "x = x + 1")))
+        # the value of every level is the last expression of the inner block
+        e = "1"
+        for i in range(depth):
+            e = "if true do %s else 0 end" % e
+        out.append(("nested-if-expression-%d" % depth, "start :: fn do\n    x := %s\n    x <=> 1\nend\n" % e))
+        mixed = ["start :: fn do", "    x := 0"]
+        opens = ["if true do", "do", "loop x < 1 do"]
+        for i in range(depth):
+            mixed.append("    " + "  " * i + opens[i % 3])
+        mixed.append("    " + "  " * depth + "x = x + 1")
+        for i in reversed(range(depth)):
+            mixed.append("    " + "  " * i + "end")
+        mixed += ["    x <=> 1", "end"]
+        out.append(("nested-mixed-%d" % depth, "\n".join(mixed) + "\n"))
+    return out
+
+
+def nesting_probe(ctx):
+    progs = nested_programs()
+    res = vlib.harness("compile", [tg.case_line(s) for _, s in progs])
+    dist = collections.Counter()
+    for (name, s), l in zip(progs, res):
+        k = l.split(" ", 1)[0]
+        dist[k] += 1
+        if k != "OK":
+            ctx.brk("oracle:C02-nesting", "%s: a well-typed program with deeply nested blocks must compile within the "
+                    "watchdog; harness says: %s" % (name, l[:200]))
+    return {"programs": len(progs), "outcomes": dict(dist)}
+
+
 def tie(ctx):
     nb = 16 if ctx.tier == "quick" else 80
     bs = base.bases(ctx, nb, salt="c02base")
     cases = base.corpus_cases("C02")
+    cases += [("nesting:" + name, tg.case_line(src)) for name, src in nested_programs() if name.endswith("-40")]
     for bi, (t, g) in enumerate(bs):
         for j, (desc, s) in enumerate(perturbed(ctx, t, bi, 6 if ctx.tier == "quick" else 12)):
             cases.append(("perturbed:%d:%d" % (bi, j), tg.case_line(s)))
@@ -178,7 +227,8 @@ def always(ctx):
     for v in unknown[:3]:
         ctx.brk("oracle:C02", "%s: accepted, then at run time: %s\n%s" % (v[1], v[3], v[2]))
     return {"oracle_distribution": dist, "oracle_unclassified_violations": len(unknown),
-            "oracle_violations_by_class": dict(collections.Counter(str(v[0]) for v in viol))}
+            "oracle_violations_by_class": dict(collections.Counter(str(v[0]) for v in viol)),
+            "nesting_probe": nesting_probe(ctx)}
 
 
 def search(ctx):
